@@ -45,12 +45,18 @@ fn cycle_refs<T>(this: Link<T>) -> HashMap<Link<T>, usize> {
     let mut discovered = vec![this];
     let mut visited = HashSet::default();
 
+    #[cfg(cactusref_verif)]
+    crate::verif::emit(crate::verif::TRACE_START, this.as_ptr() as usize);
     // crawl the graph
     while let Some(node) = discovered.pop() {
+        #[cfg(cactusref_verif)]
+        crate::verif::emit(crate::verif::TRACE_POP, node.as_ptr() as usize);
         if visited.contains(&node) {
             continue;
         }
         visited.insert(node);
+        #[cfg(cactusref_verif)]
+        crate::verif::emit(crate::verif::TRACE_VISIT, node.as_ptr() as usize);
 
         let links = unsafe { node.as_ref().links().borrow() };
         for (&link, &strong) in links.iter() {
